@@ -9,6 +9,10 @@ import json, os, subprocess, sys, time
 
 REPO = os.environ.get("VP_RUN_REPO") or "/repo"     # (a background `vp run` works on its own copy of the repository)
 ROOT = os.path.dirname(os.path.dirname(os.path.abspath(__file__)))
+if ROOT != "/verif" and not os.environ.get("VP_RUN_REPO"):
+    # a background snapshot of /verif must never patch the real /repo (start it with `vp run --with-repo`)
+    print("refusing to patch /repo from a snapshot of /verif: VP_RUN_REPO is not set")
+    sys.exit(2)
 
 # (property, file, old, new, description)
 MUTANTS = [
